@@ -271,6 +271,15 @@ func (idx *IVFIndex) Add(vector VectorNode) error {
 	}
 
 	// Find the nearest centroid (call utility directly since we already hold write lock)
+	// Re-adding an ID that is still soft-deleted (update = remove + add):
+	// purge the stale entry first, otherwise the new vector would stay hidden
+	// behind the tombstone and be dropped by the next Flush.
+	if idx.deletedNodes.Contains(vector.ID()) {
+		if err := idx.flushLocked(); err != nil {
+			return err
+		}
+	}
+
 	nearestCentroidIdx := FindNearestCentroidIndex(vector.Vector(), idx.centroids, idx.distance)
 
 	// Add vector to the corresponding inverted list
@@ -363,6 +372,11 @@ func (idx *IVFIndex) Flush() error {
 	idx.mu.Lock()
 	defer idx.mu.Unlock()
 
+	return idx.flushLocked()
+}
+
+// flushLocked is Flush without taking the lock; the caller must hold the write lock.
+func (idx *IVFIndex) flushLocked() error {
 	// Quick exit if nothing to flush
 	deletedCount := int(idx.deletedNodes.GetCardinality())
 	if deletedCount == 0 {
